@@ -90,3 +90,64 @@ def run(F, R):
     js = F.find(r"async_graphql::http::receive_batch_json")
     dec2 = [c for b in js for c in b.calls() if c.callee and re.search(r"serde_json::(de::)?from_(slice|str|reader)$", c.callee) and any("BatchRequest" in g for g in c.generics)]
     R.check(bool(dec2), "R23.4", "json-body:decoded-as-BatchRequest", js[0].where() if js else "-", "serde_json -> BatchRequest", "JSON body is not decoded as BatchRequest")
+
+    R.rule("R23.5", "the body adapter is faithful to the reader (necessary for any multipart body to decode like its JSON form when the transport "
+                    "delivers it in pieces): in ReaderStream::poll_next end-of-stream (Option::None) is produced only on the arm where poll_read "
+                    "returned 0, poll_read is called on every path to a Ready return, and the yielded bytes are buf[..n] with n the value poll_read returned")
+    from common import find_aggs
+    rs = F.one_method(r"http::multipart::ReaderStream<", "poll_next", r"Stream$")
+    reads = [c for c in rs.calls() if c.callee and re.search(r"AsyncRead::poll_read$|AsyncReadExt::poll_read$", c.callee)]
+    R.check(len(reads) == 1, "R23.5", "ReaderStream::poll_next:single-poll_read", rs.where(), "one poll_read per poll", "%d poll_read calls" % len(reads))
+    if reads:
+        rd = reads[0]
+        def is_read_size(op, depth=0):
+            """op is a plain copy (moves, field projections of Poll/ControlFlow, the `?`/ready! plumbing) of poll_read's result"""
+            if depth > 12 or op[0] not in ("c", "m"):
+                return False
+            for bb, st in rs.defs_of_local(op[1][0]):
+                r = st[1]
+                if r[0] == "use" and is_read_size(r[1], depth + 1):
+                    return True
+                if r[0] == "callret":
+                    c = r[1]
+                    if c is rd or c.bb == rd.bb:
+                        return True
+                    if c.callee and re.search(r"::branch$", c.callee) and c.args and is_read_size(c.args[0], depth + 1):
+                        return True
+            return False
+
+        zero_edges = []
+        for bb, t in rs.switches():
+            if t[1][0] in ("c", "m") and not rs.disc_of_switch(bb) and is_read_size(t[1]):
+                z = [tg for v, tg in t[2] if str(v) == "0"]
+                if z:
+                    zero_edges.append((bb, z[0], t[3]))
+        R.check(len(zero_edges) >= 1, "R23.5", "ReaderStream::poll_next:zero-test-of-read-size", rs.where(), "read size compared with 0",
+                "no switch tests the value returned by poll_read against 0")
+        nones = [(bb, a) for (bb, a) in ((x[0], x[1]) for x in find_aggs(rs, r"core::option::Option$")) if a[3] == "None"]
+        somes = [(bb, a) for (bb, a) in ((x[0], x[1]) for x in find_aggs(rs, r"core::option::Option$")) if a[3] == "Some"]
+        if zero_edges:
+            # blocks reachable without taking any `0` edge / without taking any non-zero edge
+            not_via_zero = rs.reachable(0, avoid=[z for _, z, _ in zero_edges])
+            not_via_nonzero = rs.reachable(0, avoid=[o for _, _, o in zero_edges])
+            bad = [bb for bb, _ in nones if bb in not_via_zero]
+            R.check(bool(nones) and not bad, "R23.5", "ReaderStream::poll_next:eof-only-when-read-returns-0", rs.where(),
+                    "%d None constructions, all behind the `0` arm" % len(nones),
+                    "end-of-stream is produced at bb%s on a path that does not pass the `read returned 0` arm: a short (non-empty) read or an earlier poll "
+                    "ends the body early and a piecewise-delivered multipart request is truncated" % bad)
+            bad2 = [bb for bb, _ in somes if bb in not_via_nonzero]
+            R.check(bool(somes) and not bad2, "R23.5", "ReaderStream::poll_next:data-only-when-read-nonzero", rs.where(), "%d Some constructions behind the non-zero arm" % len(somes),
+                    "a chunk is produced at bb%s without a non-zero read" % bad2)
+        # every Ready return passes the poll_read call
+        readys = [x[0] for x in find_aggs(rs, r"core::task::poll::Poll$") if x[1][3] == "Ready"]
+        skip = [bb for bb in readys if bb in rs.reachable(0, avoid=[rd.bb])]
+        R.check(bool(readys) and not skip, "R23.5", "ReaderStream::poll_next:ready-only-after-poll_read", rs.where(), "%d Ready constructions all after poll_read" % len(readys),
+                "Poll::Ready is produced at bb%s on a path that never polls the reader" % skip)
+        # the slice bound is the read size
+        idx = [c for c in rs.calls() if c.callee and re.search(r"::index$", c.callee)]
+        ok = False
+        for c in idx:
+            o, passed = trace(rs, c.args[1])
+            if any(p.bb == rd.bb for p in passed):
+                ok = True
+        R.check(ok, "R23.5", "ReaderStream::poll_next:chunk-is-buf[..n]", rs.where(), "slice bound is the poll_read result", "the yielded slice is not bounded by the value poll_read returned")
